@@ -160,8 +160,20 @@ void vf_deallocate(u32 id, void *p, u64 n, u64 elem) {
   RT_ASSERT(0, "C04: deallocate of a block that is not live (unknown pointer or double free)");
 }
 #ifndef __CPROVER__
-/* native builds of translated C: operator new/delete of std::allocator */
-u8 *vf_new_native(u64 bytes) { return (u8 *)vf_ledger_add(0, bytes, calloc(bytes ? bytes : 1, 1)); }
+/* native build of the real C++ with std::allocator: the harness TU replaces global operator new/delete by these
+ * (only allocations made while vf_main runs are tracked; the owner of std::allocator blocks is id 0) */
+int vf_native_tracking = 0;
+void *vf_native_new(u64 bytes, u64 esz) {
+  void *p = calloc(bytes ? bytes : 1, 1);
+  if (!vf_native_tracking) return p;
+  return vf_ledger_add(0, esz ? bytes / esz : bytes, p);
+}
+void vf_native_delete(void *p) {
+  if (!p) return;
+  for (int i = 0; i < NBLK; i++) if (vf_blk[i].live && vf_blk[i].p == (u8 *)p) { vf_deallocate_unsized(p); return; }
+  if (vf_native_tracking) { vf_deallocate_unsized(p); return; }   /* reports the unknown / double free */
+  free(p);
+}
 #endif
 u32 vf_live_blocks(void) { u32 c = 0; for (int i = 0; i < NBLK; i++) c += vf_blk[i].live; return c; }
 u32 vf_block_is(const void *p, u64 n, u32 id) {
@@ -317,7 +329,9 @@ int main(void) {
 int main(int argc, char **argv) {
   /* inputs: argv[1..] decimal/hex words; missing = 0 */
   for (int i = 1; i < argc && i <= VF_NIN; i++) vf_in[i - 1] = (u32)strtoul(argv[i], 0, 0);
+  vf_native_tracking = 1;
   vf_main();
+  vf_native_tracking = 0;
   if (vf_exc_active) rt_fail("rt: exception escaped the harness entry point");
   printf("HASH %016llx\n", (unsigned long long)vf_hash);
   printf("RESULT %s\n", vf_nfail ? "FAIL" : "OK");
